@@ -71,27 +71,32 @@ def _table(chk, thorough):
   kinds = {}
   n_direct = 0
   sig_checked = 0
+  npal = len(cr.PALETTES)
   for i, sig in enumerate(sigs):
-    gen = cr.generated(sig)
-    # generated signature of every symbolic class
-    want = cr.expected_signature(gen)
-    for binding, cls in (('functor', gen.functor), ('symbolize', gen.symbolized), ('object', gen.object_cls),
-                         ('wrap', gen.wrapper)):
-      got = cr.observed_signature(cls)
-      sig_checked += 1
-      if not cr.same_signature(want, got):
-        _report(chk, {'mode': 'signature', 'binding': binding},
-                      {'function': gen.src.splitlines()[0], 'expected': want, 'observed': got})
+    # generated signature of every symbolic class, for every variant of the function's own defaults
+    for dv in cr.DEFAULT_VARIANTS:
+      gen = cr.generated(sig, dv)
+      want = cr.expected_signature(gen.fn)
+      for binding, cls in (('functor', gen.functor), ('symbolize', gen.symbolized), ('object', gen.object_cls),
+                           ('wrap', gen.wrapper)):
+        got = cr.observed_signature(cls)
+        sig_checked += 1
+        if not cr.same_signature(want, got):
+          _report(chk, {'mode': 'signature', 'binding': binding},
+                  {'function': gen.src.splitlines()[0], 'expected': want, 'observed': got})
     for j, c in enumerate(calls):
       # value modes: "dist" = a keyword carries its own value (400+n), "eqv" = the value the positional route
       # would carry (300+n), so that a duplicated argument has EQUAL values on both routes
       modes = ('dist', 'eqv') if thorough else (('eqv',) if (i + j) % 2 else ('dist',))
-      for mode in modes:
+      for mi, mode in enumerate(modes):
+        # concretisation of the values (identity / None / falsy arguments x truthy / None / falsy defaults)
+        pal = cr.PALETTES[(i + 5 * j + mi) % npal]
+        gen = cr.generated(sig, pal.dv)
         cell = res[i][j][mode]
         kbase = 400 if mode == 'dist' else 300
-        err, exp = cr.expected_of(cell)
-        perr, pexp = cr.expected_partial(cell)
-        cr.check_direct(gen, c['nargs'], c['kw'], err, exp, kbase)      # MachineryFailure if BindV != interpreter
+        err, exp = cr.expected_of(cell, pal)
+        perr, pexp = cr.expected_partial(cell, pal)
+        cr.check_direct(gen, c['nargs'], c['kw'], err, exp, kbase, pal)      # MachineryFailure if BindV != interpreter
         n_direct += 1
         kinds[err] = kinds.get(err, 0) + 1
         if thorough:
@@ -99,44 +104,111 @@ def _table(chk, thorough):
         else:        # quick: the two functor paths on every pair, the six others in rotation
           bindings = ('functor', 'functor-late', cr.BINDINGS[2 + (i + j // 2) % 6])
         for b in bindings:
-          kind, val, rep = cr.run_binding(gen, b, c['nargs'], c['kw'], kbase)
+          kind, val, rep = cr.run_binding(gen, b, c['nargs'], c['kw'], kbase, pal)
           chk.evaluations += 1
           chk.count('table:' + b)
           chk.count('table-mode:' + mode)
+          chk.count('table-values:' + pal.name)
           want_err, want = (perr, pexp) if b.endswith('-partial') else (err, exp)
           clause = None
           if want_err == 'ok':
             if kind != 'ok':
               clause, observed = 'result', kind
-            elif cr.plain(val) != want:
+            elif not cr.same(val, want):
               clause, observed = 'result', 'different-value'
-            elif rep is not None and rep != want:
+            elif rep is not None and rep != cr.plain(want):
               clause, observed = 'sym_init_args', 'different-value'
           elif kind != 'TypeError':
             clause, observed = 'error-kind', kind
           if clause is None and err == 'ok' and not b.endswith('-partial') and (thorough or (i + 3 * j) % 5 == 0):
-            for how, (ckind, cval) in cr.run_copies(gen, b, c['nargs'], c['kw'], kbase).items():
+            for how, (ckind, cval) in cr.run_copies(gen, b, c['nargs'], c['kw'], kbase, pal).items():
               chk.count('copies:' + how)
-              if ckind != 'ok' or cr.plain(cval) != exp:
+              if ckind != 'ok' or not cr.same(cval, exp):
                 _report(chk, {'mode': 'table', 'binding': b, 'clause': how, 'expected': 'ok',
                               'observed': ckind if ckind != 'ok' else 'different-value'},
-                        {'function': gen.src.splitlines()[0], 'call': cr.call_args(c['nargs'], c['kw'], 300, kbase),
-                         'expected': exp, 'observed': cval})
+                        {'function': gen.src.splitlines()[0], 'values': pal.name,
+                         'call': cr.call_args(c['nargs'], c['kw'], 300, kbase, pal), 'expected': exp, 'observed': cval})
           if clause:
             _report(chk, {'mode': 'table', 'binding': b, 'clause': clause, 'expected': want_err, 'observed': observed},
-                    {'function': gen.src.splitlines()[0], 'call': cr.call_args(c['nargs'], c['kw'], 300, kbase),
-                     'values': mode,
+                    {'function': gen.src.splitlines()[0], 'call': cr.call_args(c['nargs'], c['kw'], 300, kbase, pal),
+                     'values': mode + ' ' + pal.name,
                      'expected': want if want_err == 'ok' else f'TypeError ({want_err})', 'observed_kind': kind,
                      'observed': val, 'sym_init_args': rep})
       if (i * 7 + j) % 9973 == 0:
-        chk.sample({'function': gen.src.splitlines()[0], 'call': cr.call_args(c['nargs'], c['kw'], 300, 400),
+        chk.sample({'function': cr.generated(sig).src.splitlines()[0], 'call': cr.call_args(c['nargs'], c['kw'], 300, 400),
                     'spec_outcome': res[i][j]['dist']['err'], 'spec_result': cr.expected_of(res[i][j]['dist'])[1]})
     chk.distinct_case(('sig', cr.sig_key(sig)))
   chk.notes['table'] = {'signatures': len(sigs), 'calls': len(calls), 'direct_calls_agreeing_with_BindV': n_direct,
                         'outcome_kinds': kinds, 'generated_signatures_checked': sig_checked}
   for k in ('ok', 'toomany', 'multiple', 'unexpected', 'missing'):
     chk.require(kinds.get(k, 0) > 0, f'vacuous: no table entry with outcome {k}')
-  for k in ('copies:clone', 'copies:json', 'table-mode:dist', 'table-mode:eqv') + tuple('table:' + b for b in cr.BINDINGS):
+  for k in (('copies:clone', 'copies:json', 'table-mode:dist', 'table-mode:eqv') + tuple('table:' + b for b in cr.BINDINGS)
+            + tuple('table-values:' + p.name for p in cr.PALETTES)):
+    chk.require(chk.counters.get(k, 0) > 0, f'vacuous: {k} never exercised')
+  _annotated(chk, thorough, data)
+
+
+def _annotated(chk, thorough, data):
+  """Symbolization with an explicit value spec: refused (ValueError) exactly when the spec says so, otherwise the
+  annotated callable has the callable's own signature and binds like it (sampled cells of the table)."""
+  sigs, calls, res, annot = data['sigs'], data['calls'], data['res'], data['annot']
+  npal = len(cr.PALETTES)
+  nk = len(cr.ANNOTATE_KINDS)
+  for i, sig in enumerate(sigs):
+    dvs = cr.DEFAULT_VARIANTS if thorough else (cr.DEFAULT_VARIANTS[i % 3],)
+    for dv in dvs:
+      for t, (p, mode, want) in enumerate(annot[i]):
+        akinds = cr.ANNOTATE_KINDS if thorough else (cr.ANNOTATE_KINDS[(i + t) % nk],)
+        for akind in akinds:
+          kind, cls, target = cr.annotate(sig, dv, p, mode, akind)
+          chk.evaluations += 1
+          chk.count(f'annotate:{mode}:{want}')
+          chk.count('annotate-kind:' + akind)
+          sigd = {'mode': 'annotate', 'binding': akind, 'spec': mode, 'expected': want}
+          where = {'function': cr.generated(sig, dv).src.splitlines()[0], 'parameter': cr.NAME[p], 'spec': mode,
+                   'defaults': dv}
+          if want == 'either' and kind == 'ValueError':
+            continue
+          if want == 'refused':
+            if kind != 'ValueError':
+              _report(chk, dict(sigd, clause='refusal', observed='accepted' if kind == 'ok' else kind),
+                      dict(where, observed=str(cls)[:200]))
+            continue
+          if kind != 'ok':
+            _report(chk, dict(sigd, clause='acceptance', observed=kind), dict(where, observed=str(cls)[:200]))
+            continue
+          exp_sig, got_sig = cr.expected_signature(target.__init__ if akind == 'wrap' else target), cr.observed_signature(cls)
+          if akind == 'wrap':
+            exp_sig = exp_sig[1:]          # drop self
+          if not cr.same_signature(exp_sig, got_sig):
+            _report(chk, dict(sigd, clause='signature', observed='different'),
+                    dict(where, expected=exp_sig, observed=got_sig))
+          # the annotated callable binds exactly like the callable: a few cells of the table, both binding times
+          for u in range(4 if not thorough else 8):
+            j = (17 * i + 29 * t + 53 * u) % len(calls)
+            pals = [q for q in cr.PALETTES if q.dv == dv]
+            pal = pals[(i + u) % len(pals)]
+            mode_v = 'eqv' if u % 2 else 'dist'
+            kbase = 300 if u % 2 else 400
+            err, exp = cr.expected_of(res[i][j][mode_v], pal)
+            for late in ((False,) if akind == 'wrap' else (False, True)):
+              ck, cv = cr.run_annotated(cls, akind, late, calls[j]['nargs'], calls[j]['kw'], kbase, pal)
+              chk.evaluations += 1
+              chk.count('annotate:calls')
+              bad = None
+              if err == 'ok':
+                if ck != 'ok':
+                  bad = ck
+                elif not cr.same(cv, exp):
+                  bad = 'different-value'
+              elif ck != 'TypeError':
+                bad = ck
+              if bad:
+                _report(chk, dict(sigd, clause='result' if err == 'ok' else 'error-kind', observed=bad, late=late),
+                        dict(where, call=cr.call_args(calls[j]['nargs'], calls[j]['kw'], 300, kbase, pal),
+                             values=pal.name, expected=exp if err == 'ok' else f'TypeError ({err})', observed=cv))
+  for k in ('annotate:conflict:refused', 'annotate:conflict:either', 'annotate:same:accepted', 'annotate:nodefault:accepted',
+            'annotate:noneable:accepted', 'annotate:calls') + tuple('annotate-kind:' + a for a in cr.ANNOTATE_KINDS):
     chk.require(chk.counters.get(k, 0) > 0, f'vacuous: {k} never exercised')
 
 
@@ -151,7 +223,9 @@ def _lifecycle(chk, thorough):
     raise tlc.TLCError(f'C18_sim.cfg: {r.violated} violated during simulation:\n' + r.out[-3000:])
   hits = {}
   for k, beh in enumerate(behaviours):
-    rp = cr.Replayer(k % 2)
+    pal = cr.PALETTES[(k // 2) % len(cr.PALETTES)]
+    rp = cr.Replayer(k % 2, pal)
+    chk.count('lifecycle-values:' + pal.name)
     divs = rp.replay(beh)
     chk.traces += 1
     chk.evaluations += rp.steps_done
@@ -164,17 +238,19 @@ def _lifecycle(chk, thorough):
     if not divs:
       chk.count('behaviours_conforming')
       if len(chk.samples) < 6 and len(beh) > 6:
-        chk.sample({'function': cr.generated(beh[0].state['sig']).src.splitlines()[0], 'behaviour': acts[:10],
-                    'flavour': 'pg.functor' if k % 2 == 0 else 'pg.symbolize'})
+        chk.sample({'function': cr.generated(beh[0].state['sig'], pal.dv).src.splitlines()[0], 'behaviour': acts[:10],
+                    'values': pal.name, 'flavour': 'pg.functor' if k % 2 == 0 else 'pg.symbolize'})
     for d in divs:
       st = beh[d.step].state
       observed = str(d.observed).split(':')[0] if isinstance(d.observed, str) else 'different-value'
       _report(chk, {'mode': 'lifecycle', 'clause': d.clause, 'action': st['act'][0], 'expected': st['res']['err'],
                      'observed': observed, 'after_json': bool(d.after_json)},
-                    {'function': cr.generated(beh[0].state['sig']).src.splitlines()[0],
-                     'flavour': 'pg.functor' if k % 2 == 0 else 'pg.symbolize',
+                    {'function': cr.generated(beh[0].state['sig'], pal.dv).src.splitlines()[0],
+                     'values': pal.name, 'flavour': 'pg.functor' if k % 2 == 0 else 'pg.symbolize',
                      'history': acts[:d.step], 'expected': d.expected, 'observed': d.observed})
   chk.notes['lifecycle_hits'] = dict(sorted(hits.items()))
+  for q in cr.PALETTES:
+    chk.require(chk.counters.get('lifecycle-values:' + q.name, 0) > 0, f'vacuous: no behaviour with values {q.name}')
   for need in ('Construct:ok', 'SetAttr', 'DelAttr', 'Rebind', 'Clone', 'JsonRT', 'Call:ok', 'Call:rebound',
                'Call:multiple', 'Call:toomany', 'Call:unexpected', 'Call:missing',
                'Construct-mode:distinct', 'Construct-mode:equal', 'Construct-mode:boxed',
